@@ -167,12 +167,16 @@ func buildStrategyEngines(
 	if strategy == UseAhoCorasick && literals != nil && !literals.IsEmpty() {
 		builder := ahocorasick.NewBuilder()
 		litCount := literals.Len()
+		lits := make([][]byte, 0, litCount)
 		for i := 0; i < litCount; i++ {
 			lit := literals.Get(i)
 			builder.AddPattern(lit.Bytes)
+			lits = append(lits, lit.Bytes)
 		}
 		auto, err := builder.Build()
-		if err != nil {
+		if err != nil || !prefilter.SubstringFree(lits) {
+			// The automaton reports the earliest-ending match, which is the
+			// leftmost-first match only for substring-free literal sets.
 			result.finalStrategy = UseNFA
 		} else {
 			result.ahoCorasick = auto
@@ -636,7 +640,7 @@ func CompileRegexp(re *syntax.Regexp, config Config) (*Engine, error) {
 			for _, pattern := range fatTeddy.Patterns() {
 				builder.AddPattern(pattern)
 			}
-			if auto, err := builder.Build(); err == nil {
+			if auto, err := builder.Build(); err == nil && prefilter.SubstringFree(fatTeddy.Patterns()) {
 				fatTeddyFallback = auto
 			}
 		}
